@@ -61,10 +61,12 @@ def sha_file(path):
 # --------------------------------------------------------------------------------------
 # extraction + Verus
 # --------------------------------------------------------------------------------------
-def run_extract(workdir):
+def run_extract(workdir, force_external=()):
     out = os.path.join(workdir, "ppp_verus.rs")
     cmd = [sys.executable, os.path.join(VERIF, "extract", "extract.py"), "--repo", REPO,
-           "--contracts", CONTRACTS, "--out", out, "--vacuity"]
+           "--contracts", CONTRACTS, "--out", out, "--vacuity", "--fallback"]
+    if force_external:
+        cmd += ["--external-body", ";".join(sorted(force_external))]
     p = subprocess.run(cmd, capture_output=True, text=True)
     if p.returncode != 0:
         raise Undecided("extraction failed: " + (p.stderr.strip() or p.stdout.strip()))
@@ -216,6 +218,30 @@ def classify(diags, meta):
     return failures, hard, undec
 
 
+def hard_error_functions(diags, meta):
+    """functions (src::key) in whose bodies the non-verification errors (unsupported construct, type
+    error) are located; empty when an error is outside any extracted function body"""
+    linemap = meta["linemap"]
+    out = set()
+    for d in diags:
+        if d.get("level") != "error":
+            continue
+        msg = d.get("message", "")
+        if msg.startswith("aborting due to") or any(msg.startswith(m) or m in msg for m in VERIFICATION_FAILURE) or any(m in msg for m in UNDECIDED_MARKERS):
+            continue
+        found = None
+        for sp in d.get("spans", []):
+            if not sp.get("is_primary"):
+                continue
+            info = linemap[sp["line_start"] - 1] if 0 < sp["line_start"] <= len(linemap) else None
+            if info and "fn" in info and "src" in info and "clause" not in info:
+                found = f"{info['src']}::{info['fn']}"
+        if not found:
+            return set()
+        out.add(found)
+    return out
+
+
 # --------------------------------------------------------------------------------------
 # lemma index
 # --------------------------------------------------------------------------------------
@@ -336,17 +362,27 @@ def main(argv):
 
 
 def decide(pid, pcfg, cfg, tier, seed, workdir, evidence):
-    gen, meta = run_extract(workdir)
     cov = evidence["coverage"]
-    # ---- main Verus run
-    res = run_verus(gen)
-    if res["json"] is None:
-        raise Undecided("verus produced no result: " + res.get("stderr_tail", "")[-600:])
-    failures, hard, undec = classify(res["diags"], meta)
-    vr = res["json"].get("verification-results", {})
-    if hard or vr.get("encountered-vir-error") or (vr.get("encountered-error") and not failures and not undec):
-        msg = (hard[0] if hard else "verus reported an error that is not a failed obligation")
-        raise Undecided("verus rejected the extracted file (unsupported construct / type error), no verdict:\n" + msg[:1500])
+    # ---- extraction + main Verus run.  A function that the extractor or Verus cannot take (a construct
+    # outside the supported subset) is left unverified (external_body, its contract assumed for its
+    # callers) and decided by a bounded stand-in below; everything else is verified as usual.
+    force = set()
+    for attempt in range(4):
+        gen, meta = run_extract(workdir, force)
+        res = run_verus(gen)
+        if res["json"] is None:
+            raise Undecided("verus produced no result: " + res.get("stderr_tail", "")[-600:])
+        failures, hard, undec = classify(res["diags"], meta)
+        vr = res["json"].get("verification-results", {})
+        if not (hard or vr.get("encountered-vir-error") or (vr.get("encountered-error") and not failures and not undec)):
+            break
+        culprits = hard_error_functions(res["diags"], meta)
+        new = culprits - force
+        if not new or attempt == 3:
+            msg = (hard[0] if hard else "verus reported an error that is not a failed obligation")
+            raise Undecided("verus rejected the extracted file (unsupported construct / type error), no verdict:\n" + msg[:1500])
+        force |= new
+    externalised = meta.get("externalised", [])
     fres = function_results(res["json"])
     lemmas = lemma_index()
 
@@ -469,6 +505,29 @@ def decide(pid, pcfg, cfg, tier, seed, workdir, evidence):
     undec_mine = [u for u in undec if u["fn"] is None or tuple(u["fn"]) in my_fn_keys]
     if undec_mine:
         raise Undecided("resource limit in " + str(undec_mine[0]["fn"]) + ": " + undec_mine[0]["message"])
+    # ---- bounded stand-in for functions left outside the verified subset
+    ext_mine = [x for x in externalised if (x["src"], x["item"]) in my_fn_keys]
+    if ext_mine:
+        import finder
+        found = finder.search(pid)
+        cov["bounded_stand_in"] = {
+            "functions_not_verified": ext_mine,
+            "method": "finder/: real code vs executable transcription of the specification over a structured input set (DESIGN.md section 3); "
+                      "BOUNDED, not a proof: the contracts of these functions are assumed for their callers",
+            "cases": (found or {}).get("cases"), "mismatch": bool(found and found.get("found"))}
+        evidence["level"] = "other"
+        cov["explanation"] = ("BOUNDED for " + ", ".join(x["item"] for x in ext_mine) + " (outside the verified subset in this tree); "
+                              + cov.get("explanation", ""))
+        if found is None:
+            raise Undecided("functions outside the verified subset and the bounded stand-in could not be run: " + ext_mine[0]["item"])
+        if found.get("found"):
+            path = write_replay(pid, [], {"failing_input": {"case": found["case"], "expected": found["expected"], "actual": found["actual"],
+                                                            "how": "bounded stand-in (finder/) for a function outside the verified subset"},
+                                          "functions_not_verified": ext_mine})
+            evidence["violations"] = 1
+            log(f"failing input: {found['case'][:200]} expected: {found['expected'][:200]} actual: {found['actual'][:200]}")
+            log(f"VIOLATION property={pid} replay={path}")
+            return 1
     if deps:
         raise Undecided("a functional (determinism) clause this property's proof depends on failed: " + "; ".join(deps[0]["where"]))
     if not vac["ok"]:
